@@ -17,11 +17,11 @@ import (
 type c03Route struct{ host, path string }
 
 var c03Hosts = []string{"", "foo.com", "a.foo.com", "*.foo.com", "*.a.foo.com", "*.com", "foo.com:8080"}
-var c03Paths = []string{"/", "/a", "/a/b", "/A"}
+var c03Paths = []string{"/", "/a", "/a/b", "/A", "/ä"}
 var c03GlobPaths = []string{"/a/*", "/a*"}
 
 var c03ReqHosts = []string{"foo.com", "FOO.com", "Foo.Com:80", "foo.com:443", "a.foo.com", "x.a.foo.com", "foo.com:8080", "bar.org", "", "A.Foo.Com:443"}
-var c03ReqPaths = []string{"/", "/a", "/a/b/c", "/A/b", "/x", "/ab"}
+var c03ReqPaths = []string{"/", "/a", "/a/b/c", "/A/b", "/x", "/ab", "/ä/x", "/a/b/c|/%61/b/c", "/a b|/a%20b"}
 
 func c03NormReqHost(h string, tls bool) string {
 	if !tls && strings.HasSuffix(h, ":80") {
@@ -72,6 +72,9 @@ func c03PathMatch(matcher, pat, path string) bool {
 
 // c03Expect returns the set of acceptable winners (indices into routes); empty = no route.
 func c03Expect(routes []c03Route, matcher string, globDisabled bool, reqHost string, tls bool, path string) map[int]bool {
+	if i := strings.Index(path, "|"); i >= 0 {
+		path = path[:i] // routes match the decoded path
+	}
 	h := c03NormReqHost(reqHost, tls)
 	bestClass, bestSuffix := 0, -1
 	type cand struct{ i, class, suffix int }
@@ -210,6 +213,9 @@ func TestVerifC03Select(t *testing.T) {
 }
 
 func c03Cands(routes []c03Route, matcher string, gd bool, reqHost string, tls bool, path string) int {
+	if i := strings.Index(path, "|"); i >= 0 {
+		path = path[:i]
+	}
 	h := c03NormReqHost(reqHost, tls)
 	n := 0
 	for _, r := range routes {
